@@ -1,13 +1,15 @@
 #!/bin/bash
-# usage: tools/try_mutant.sh <patch.diff> <Cxx> [more props...]   - apply to /repo, run quick checks, revert
+# usage: tools/try_mutant.sh <patch.diff> <Cxx> [more props...]
+# Applies the patch to a SCRATCH worktree of /repo HEAD (never to /repo itself), runs the checks against
+# it (CIMBA_REPO), and removes the worktree.  ONLY=<substr> restricts groups, TIER=thorough selects tier.
 patch="$1"; shift
-cd /repo || exit 2
-if ! git diff --quiet; then echo "/repo is dirty, refusing"; exit 2; fi
-if ! git apply "$patch" 2>/dev/null && ! patch -p1 --fuzz=3 -s < "$patch"; then echo "patch does not apply"; git reset -q --hard HEAD; exit 2; fi
-git reset -q 2>/dev/null
+wt=$(mktemp -d /tmp/mt.XXXXXX); rmdir "$wt"
+git -C /repo worktree add --detach "$wt" HEAD >/dev/null 2>&1 || { echo "worktree failed"; exit 2; }
+cd "$wt"
+if ! git apply "$patch" 2>/dev/null && ! patch -p1 --fuzz=3 -s < "$patch"; then echo "patch does not apply"; cd /; git -C /repo worktree remove --force "$wt"; exit 2; fi
 cd /verif
 for p in "$@"; do
-  ./cv check "$p" --tier ${TIER:-quick} ${ONLY:+--only $ONLY} 2>&1 | grep -v "^WARNING" | cut -c1-400
+  CIMBA_REPO="$wt" ./cv check "$p" --tier ${TIER:-quick} ${ONLY:+--only $ONLY} --no-evidence 2>&1 | grep -v "^WARNING" | cut -c1-400
   echo "rc[$p]=${PIPESTATUS[0]}"
 done
-git -C /repo reset -q --hard HEAD; find /repo -name '*.orig' -o -name '*.rej' | xargs -r rm -f; git -C /repo status --short | head -3
+cd /; git -C /repo worktree remove --force "$wt"
